@@ -273,7 +273,9 @@ def single_edits(tokens, vocab, r, limit=None):
 
 
 SNIPPETS = [[b"else", b"{", b"stop", b";", b"}"], [b"elsif", b"true", b"{", b"keep", b";", b"}"], [b"if", b"true", b"{", b"}"],
-            [b"stop", b";"], [b"require", b'"fileinto"', b";"], [b"true"], [b"{", b"}"], [b"(", b"true", b")"], [b"[", b'"a"', b"]"]]
+            [b"stop", b";"], [b"require", b'"fileinto"', b";"], [b"true"], [b"{", b"}"], [b"(", b"true", b")"], [b"[", b'"a"', b"]"],
+            # a value where a command should start, with bytes that are no UTF-8 (the verdict quotes the offending token)
+            [b'"caf\xe9"'], [b"text:\n\xff\xfe\n.\n"], [b'"\xed\xa0\x80"', b";"], [b":\xc3"], [b"9\xff"]]
 
 
 def structural_edits(tokens, r, limit=12):
@@ -283,7 +285,7 @@ def structural_edits(tokens, r, limit=12):
     out = []
     for pos in starts:
         for sn in SNIPPETS:
-            out.append(("ins-" + sn[0].decode(), pos, tokens[:pos] + sn + tokens[pos:]))
+            out.append(("ins-" + sn[0].decode("latin-1"), pos, tokens[:pos] + sn + tokens[pos:]))
     opens = [i for i, t in enumerate(tokens) if t == b"{"]
     for i in opens:
         d = 0
